@@ -235,8 +235,12 @@ class ModelRegistry:
                 have = [a for a in r.addrs if a.type == t]
                 req.extend(have)
                 if not have and r.nsec is not None:
+                    # "NSEC when the asked address type does not exist": the type exists when any registered service
+                    # of that host name has an address of it - a reply that carries the address and denies it in the
+                    # same breath is wrong (third audit, D57)
                     host_has = any(a.type == t for o in self.s.values() if o.server.lower() == name for a in o.addrs)
-                    (opt if host_has else req).append(r.nsec)
+                    if not host_has:
+                        req.append(r.nsec)
             if t == wire.T_ANY and r.server.lower() == name:
                 opt.extend(r.addrs)
                 if r.nsec is not None:
